@@ -266,6 +266,18 @@ def _trace_has_restored():
 RESTORE_EVENTS = _trace_has_restored()
 
 
+def probe_may_succeed(outcome):
+    """the scripted answer to this probe is a 2xx (at once or late): the only probes a successful result can come from"""
+    if outcome == "ok":
+        return True
+    parts = outcome.split(":")
+    if parts[0] == "status":
+        return 200 <= int(parts[1]) <= 299
+    if parts[0] == "slow":
+        return len(parts) < 3 or 200 <= int(parts[2]) <= 299
+    return False
+
+
 def kind_term(e):
     k, a = e["kind"], e["args"]
     if k == "issue":
@@ -278,7 +290,7 @@ def kind_term(e):
     if k == "respond":
         return "KRespond %d %d %s" % (rid(a[0]), a[1], str_lit(a[2].encode()))
     if k == "probe-sent":
-        return "KProbeSent %s %s" % (str_lit(a[0].encode()), bool_lit(a[1] == "ok"))
+        return "KProbeSent %s %s" % (str_lit(a[0].encode()), bool_lit(probe_may_succeed(a[1])))
     if k == "at-target":
         return "KAtTarget %d %d" % (idn(a[0]), rid(a[1]))
     if k == "target-replied":
